@@ -379,7 +379,9 @@ def _sparse(data):
 
 def family_reference_modules(m):
     """(module for V8's first instantiations, module for V8's child instantiations | None = the same, note).
-    V8 has no NewChild: a child is a further V8 instance made with the SAME import objects as its parent.  What `<module>NewChild` does
+    V8 has no NewChild: a child is a further V8 instance made with the imported memories and globals of its parent (an imported table
+    is per instance on both sides: a wasm table entry is a closure over its defining instance, w2c2's a C function pointer called with the
+    caller's instance, so sharing a table between instances differs by design).  What `<module>NewChild` does
     differently from that is made explicit here, as the emitted code does it (Model/NewChild.lean, Props/C06Child.lean):
       * a SHARED defined memory of the child is the parent's object: for V8 that memory becomes an import (same index space: it is the
         only memory), so parent and child share it and the data segments are applied to it again, as InitMemories(child, self) does;
@@ -459,8 +461,16 @@ def family(repo, work, w2c2, m, calls, imp, tr, build, spec, cap=12):
         if r.instantiate[0] in ("build_error", "w2c2_error"):
             out["skipped"] = "build: %s" % (r.instantiate[1][:200],)
             return out
-        diffs, info = e2e.compare(r, v)
+        # host calls are compared family-wide below: V8's per-instance logs attribute a call to the instance whose closure ran, and a
+        # child's element segments put ITS closures into a table it shares with the parent
+        diffs, info = e2e.compare(r, v, what=("instantiate", "results", "mem", "globals"))
         out["compared_calls"] += info["compared_calls"]
+        if not r.host_inst_ok:
+            out["diffs"].append({"kind": "family-host_instance", "instance": k, "role": "ABCD"[k],
+                                 "real": "an imported function did not receive the calling instance", "v8": None})
+        diffs, ndrop = nan_leak_filter(spec, [[n_.decode("latin-1") if isinstance(n_, bytes) else n_, a_] for n_, a_ in cs], diffs)
+        if ndrop:
+            out["nan_sign_leaks_tolerated"] = out.get("nan_sign_leaks_tolerated", 0) + ndrop
         for d in diffs:
             if d["kind"] == "memory" and float_stores:
                 out["memory_hash_not_compared_float_stores"] = True       # NaN payloads of stored arithmetic results are left open
@@ -468,6 +478,28 @@ def family(repo, work, w2c2, m, calls, imp, tr, build, spec, cap=12):
             out["diffs"].append(dict(d, kind="family-" + d["kind"], instance=k, role="ABCD"[k]))
         if any(x is False for x in r.bound.values()):
             out["diffs"].append({"kind": "family-import-not-bound", "instance": k, "role": "ABCD"[k], "real": r.bound})
+    # the host calls of the whole family, in the order they happened: (callee, argument bits); the calling instance is checked on the real side
+    created_at = {1: at, 3: 0}
+    seq = []
+    for k, r in enumerate(rs):
+        for n_, (cn, ent) in enumerate(zip(r.host_calls, r.host_log)):
+            key = (cn, 0, n_) if cn >= 0 else ((created_at[k] - 0.5, k, n_) if k in created_at else (-1, k, n_))
+            seq.append((key, ent))
+    seq = [ent for key, ent in sorted(seq, key=lambda x: x[0])]
+    vseq = getattr(vs[0], "family_log", [])
+    out["host_calls_compared"] = len(vseq)
+    if not any(dd["kind"] == "family-result" and dd["real"][0] in ("ub", "crash", "timeout", "missing") for dd in out["diffs"]):
+        for n_ in range(max(len(seq), len(vseq))):
+            a_ = seq[n_] if n_ < len(seq) else None
+            b_ = vseq[n_] if n_ < len(vseq) else None
+            if a_ is None or b_ is None or a_[0] != b_[0] or not e2e.same_vals(a_[1], b_[1]):
+                if a_ is not None and b_ is not None and a_[0] == b_[0] and _nan_derived(("val", list(a_[1])), ("val", list(b_[1]))) and \
+                        any(i.op in NAN_LEAK_OPS for f_ in m.funcs for i in _walk(f_.body)):
+                    out["nan_sign_leaks_tolerated"] = out.get("nan_sign_leaks_tolerated", 0) + 1      # what follows may depend on it
+                    out["diffs"] = [dd for dd in out["diffs"] if dd["kind"] not in ("family-result", "family-global", "family-memory")]
+                else:
+                    out["diffs"].append({"kind": "family-host_log", "entry": n_, "real": a_, "v8": b_, "role": "all"})
+                break
     # the dumps around each NewChild
     n_gi = sum(1 for i in m.imports if i.kind == "global")
     n_mi = sum(1 for i in m.imports if i.kind == "memory")
@@ -597,6 +629,71 @@ def mem_diag(m, b, calls, imp, rr):
         if vb[k] != rr.mem_bytes[k]:
             return {"first_diff": k, "real": rr.mem_bytes[k:k + 16].hex(), "v8": vb[k:k + 16].hex()}
     return {"first_diff": None, "len_real": n, "len_v8": len(vb)}
+
+
+def _nan_derived(a, b):
+    """two results that may both come from ONE arithmetic NaN whose sign/payload the specification leaves open: floats equal up to
+    the sign bit (fNN.copysign with a NaN as sign source), or values that are both NaN patterns of a float width (reinterpret)"""
+    if a[0] != "val" or b[0] != "val" or len(a[1]) != len(b[1]):
+        return False
+    for (t1, x), (t2, y) in zip(a[1], b[1]):
+        if t1 != t2:
+            return False
+        if x == y:
+            continue
+        w = 32 if t1 in ("i32", "f32") else 64
+        sign = 1 << (w - 1)
+        ft = "f32" if w == 32 else "f64"
+        if t1 in ("f32", "f64") and (x | sign) == (y | sign):
+            continue
+        if e2e.is_nan(ft, x) and e2e.is_nan(ft, y):
+            continue
+        return False
+    return True
+
+
+def nan_leak_filter(spec, calls_made, diffs):
+    """Drop result differences that the specification allows: the called function can reach (statically) an instruction that makes the
+    sign/payload of an arithmetic NaN visible in non-NaN bits (fNN.copysign, iNN.reinterpret_fNN; NAN_LEAK_OPS) and the two results
+    differ only in such bits; everything the same script observes afterwards may depend on it and is dropped too.
+    Returns (kept diffs, number dropped)."""
+    if not any(d.get("kind") in ("result", "host_log") and d.get("call") is not None for d in diffs):
+        return diffs, 0
+    try:
+        m, b, imp, exports = load_module(spec)
+        nimp, omitted, reach = sim_plan(m)
+        leaky = set(f for f in range(nimp, nimp + len(m.funcs))
+                    if any(i.op in NAN_LEAK_OPS for i in _walk(m.funcs[f - nimp].body)))
+        exd = {}
+        for nm, f in exports:
+            exd.setdefault(bytes(nm), f)
+    except Exception:
+        return diffs, 0
+    kept, dropped, tainted_from = [], 0, None
+    for d in sorted(diffs, key=lambda d: (d.get("call") is None, d.get("call") or 0)):
+        c = d.get("call")
+        if tainted_from is not None and (c is None or c >= tainted_from):
+            dropped += 1
+            continue
+        if d.get("kind") == "host_log" and c is not None and 0 <= c < len(calls_made) and d.get("real") and d.get("v8") and d["real"][0] == d["v8"][0]:
+            # the arguments handed to an imported function
+            f = exd.get(calls_made[c][0].encode("latin-1"))
+            if f is not None and any(x in leaky for x in reach(f)) and \
+                    _nan_derived(("val", [tuple(v) for v in d["real"][1]]), ("val", [tuple(v) for v in d["v8"][1]])):
+                tainted_from = c
+                dropped += 1
+                continue
+        if d.get("kind") == "result" and c is not None and c < len(calls_made):
+            f = exd.get(calls_made[c][0].encode("latin-1"))
+            real, ref = d.get("real"), d.get("v8", d.get("spec"))
+            if f is not None and real and ref and any(x in leaky for x in reach(f)) and \
+                    _nan_derived((real[0], [tuple(v) for v in real[1]]) if real[0] == "val" else tuple(real),
+                                 (ref[0], [tuple(v) for v in ref[1]]) if ref[0] == "val" else tuple(ref)):
+                tainted_from = c
+                dropped += 1
+                continue
+        kept.append(d)
+    return kept, dropped
 
 
 def run_jobs(jobs, procs=None):
